@@ -21,8 +21,10 @@ def base_cfg(variant=0):
                        cea=None, cer=None, dwa=None, idle=None, rwait=30, apps=[0], default=False),
                   dict(name=HOSTS[1], realm="example.net", addr=True, persistent=True, always=False,
                        cea=None, cer=None, dwa=None, idle=None, rwait=30, apps=[0], default=False)]
-    if variant == 1:      # per-peer timers that differ from the node's, accounting application
+    if variant == 1:      # per-peer timers that differ (a lot) from the node's, accounting application
         c["apps"] = [dict(id=3, auth=False, acct=True)]
+        c["idle"] = 30
+        c["ips"] = 3
         for p in c["peers"]:
             p.update(cea=2, cer=6, dwa=2, idle=4)
     if variant == 2:      # the local name loses elections; two applications with the same id on different peers
@@ -32,6 +34,9 @@ def base_cfg(variant=0):
         c["peers"][1]["apps"] = [1]
         c["peers"].append(dict(name=HOSTS[2], realm="example.net", addr=False, persistent=False, always=False,
                                cea=None, cer=None, dwa=None, idle=None, rwait=30, apps=[], default=False))
+    if variant == 4:      # cli0 is a DEFAULT peer of the realm but not configured for the application (cli1 is)
+        c["peers"][0].update(apps=[], default=True)
+        c["peers"][1].update(persistent=False, addr=False)
     if variant == 3:      # one application whose peers live in different realms
         c["peers"][0]["realm"] = "other.example.org"      # cli0 (the focus connection's peer)
         c["peers"][1]["realm"] = "example.net"
@@ -101,6 +106,8 @@ class Ctx:
 
 def act(cx, tok):
     """perform one abstract action; returns False if it does not apply in the current state"""
+    if cx.stopped and not cx.snap()["conns"]:
+        cx.stop_immediate = True      # nothing is left to wait for: stop() goes on to completion by itself
     if getattr(cx, "stop_immediate", False):
         return False         # the I/O thread has its stop flag: nothing further is processed
     f = cx.focus
@@ -123,6 +130,8 @@ def act(cx, tok):
             a, c = [0xffffffff], []
         elif kind == "swapped":        # the node's ids advertised under the other kind
             a, c = acct, auth
+        elif kind == "relayacct":      # nothing in common, relay id only among the accounting ids
+            a, c = [999], [0xffffffff]
         return cx.recv(f, dict(kind="cer", host=host, auth=a, acct=c)) is not None
     if tok.startswith("cea_"):
         kind = tok[4:]
@@ -137,12 +146,14 @@ def act(cx, tok):
             spec["host"] = None
         elif kind == "foreign":
             spec["host"] = HOSTS[0] if name != HOSTS[0] else HOSTS[1]
+        elif kind == "upper":          # the dialled peer's name in another letter case
+            spec["host"] = name.upper()
         return cx.recv(f, spec) is not None
     if tok in ("dwr", "dwa", "dpr", "dpa"):
         return cx.recv(f, dict(kind=tok, host=cx.host_of(f))) is not None
     if tok == "dwr0":
         return cx.recv(f, dict(kind="dwr", host=cx.host_of(f), hbh=0, e2e=cx.ids()[1])) is not None
-    if tok in ("req", "req0", "req_bad", "req_app", "req_realm", "req_unk", "req_raise"):
+    if tok in ("req", "req0", "req_bad", "req_app", "req_realm", "req_unk", "req_raise", "req_unk_app"):
         spec = dict(kind="req", host=cx.host_of(f), app=app_ids[0] if app_ids else 4)
         if tok == "req0":
             spec.update(hbh=0, e2e=cx.ids()[1])
@@ -156,6 +167,9 @@ def act(cx, tok):
             spec["code"] = 8388000
         elif tok == "req_raise":
             spec["raises"] = True
+        elif tok == "req_unk_app":     # a command without a python class for an application nobody registered
+            spec["code"] = 8388000
+            spec["app"] = 777
         return cx.recv(f, spec) is not None
     if tok in ("ra", "rb"):      # a request from origin host A (the peer) / B (another host behind it), answered by the application
         spec = dict(kind="req", host=cx.host_of(f) if tok == "ra" else "behind-relay.example.net", app=app_ids[0] if app_ids else 4)
@@ -187,6 +201,34 @@ def act(cx, tok):
         cx.pending_frag = None
         cx.do(dict(ev="recv", cid=f, frames=[fr], raw=fr[11:]))
         return True
+    if tok == "req_plus_part":   # one read: a whole request followed by the first 24 bytes of the next frame; then the rest
+        if not cx.alive(f) or getattr(cx, "pending_frag", None):
+            return False
+        h1, e1 = cx.ids()
+        h2, e2 = cx.ids()
+        f1 = NS.build_message(dict(kind="dwr", host=cx.host_of(f), hbh=h1, e2e=e1))
+        f2 = NS.build_message(dict(kind="dwr", host=cx.host_of(f), hbh=h2, e2e=e2))
+        cx.do(dict(ev="recv", cid=f, frames=[f1], raw=f1 + f2[:24]))
+        cx.do(dict(ev="recv", cid=f, frames=[f2], raw=f2[24:]))
+        return True
+    if tok in ("retx_pending", "retx_old"):
+        # T-flagged repeat of a request that is delivered but NOT yet answered / of the OLDEST answered request
+        from diameter.message import Message
+        if not cx.alive(f):
+            return False
+        if tok == "retx_pending":
+            if not cx.delivered:
+                return False
+            w = cx.delivered[-1][3]
+        else:
+            if len(cx.answered) < 2:
+                return False
+            w = cx.answered[0]
+        m = Message.from_bytes(w)
+        m.header.is_retransmit = True
+        m.header.hop_by_hop_identifier = cx.ids()[0]
+        cx.do(dict(ev="recv", cid=f, frames=[m.as_bytes()]))
+        return True
     if tok == "retx":          # T-flagged repeat of the last answered request, new hop-by-hop id
         if not cx.answered or not cx.alive(f):
             return False
@@ -208,8 +250,8 @@ def act(cx, tok):
             return False
         cx.do(dict(ev="app_answer", app=0, msg=cx.g.make_answer(cx.answered[-1])))
         return True
-    if tok in ("t1", "tbig", "tdwa", "t30"):
-        dt = {"t1": 1, "tbig": 6, "tdwa": 4, "t30": 31}[tok]
+    if tok in ("t1", "t3", "tbig", "tdwa", "t30", "t1200"):
+        dt = {"t1": 1, "t3": 3, "tbig": 6, "tdwa": 4, "t30": 31, "t1200": 1200}[tok]
         cx.do(dict(ev="tick", dt=dt, dials=[(7100 + len(cx.events), "DialOk")] * (dt + 2)))
         return True
     if tok == "close":
@@ -255,12 +297,13 @@ def act(cx, tok):
         return False
     if tok == "accept":
         # variant 0: the connection's hop-by-hop generator is about to wrap (0xffffffff is followed by 1, never by 0)
-        h0 = 0xfffffffe if cx.cfg.get("variant") == 0 else 5000 + 17 * len(cx.r.remotes)
+        h0 = 0xfffffffe if cx.cfg.get("variant") == 0 else (5000 if cx.cfg.get("variant") == 2 else 5000 + 17 * len(cx.r.remotes))
         cx.do(dict(ev="accept", hbh0=h0))
         cx.focus = len(cx.r.remotes) - 1
         return True
     if tok == "accept_bg":       # a further connection that does not take the focus
-        cx.do(dict(ev="accept", hbh0=5000 + 17 * len(cx.r.remotes)))
+        # (variant 2: its hop-by-hop generator starts where the first connection's did: equal ids on two connections)
+        cx.do(dict(ev="accept", hbh0=5000 if cx.cfg.get("variant") == 2 else 5000 + 17 * len(cx.r.remotes)))
         cx.conn["bg"] = len(cx.r.remotes) - 1
         return True
     if tok == "swap":            # move the focus to the other connection
@@ -275,10 +318,10 @@ def act(cx, tok):
 THEMES = {
     # theme: (config variants, setup tokens, alphabet)
     "handshake_in": ((0, 1, 2), ["accept"],
-                     ["cer_known", "cer_unknown", "cer_nocommon", "cer_relay", "cer_swapped", "cea_ok", "dwr", "dpr", "req", "ans",
+                     ["cer_known", "cer_unknown", "cer_nocommon", "cer_relay", "cer_relayacct", "cer_swapped", "cea_ok", "dwr", "dpr", "req", "ans",
                       "tdwa", "close", "accept_bg", "swap"]),
     "handshake_out": ((0, 1, 2), [],
-                      ["cea_ok", "cea_2002", "cea_3010", "cea_nohost", "cea_foreign", "cer_known1", "cer_known", "dwr", "dwa", "dpr", "req",
+                      ["cea_ok", "cea_upper", "cea_2002", "cea_3010", "cea_nohost", "cea_foreign", "cer_known1", "cer_known", "dwr", "dwa", "dpr", "req",
                        "tdwa", "t1", "close", "appreq"]),
     "ready": ((0, 1, 2), ["accept", "cer_known"],
               ["dwr", "dwr0", "dwa", "dpr", "dpa", "req", "req0", "req_raise", "req_bad", "req_app", "req_realm", "req_unk", "retx", "ans",
@@ -300,11 +343,21 @@ PHASED = {
     "disconnect_deep": ((0, 1, 2), ["accept", "cer_known"],
                         [("any", ["tbig", "dpr", "dwa", "dwr", "req", "ans", "t1", "close", "appreq", "cea_ok"], 4)]),
     "watchdog": ((0, 1), ["accept", "cer_known"],
-                 [("any", ["tbig", "tdwa", "t1", "dwa", "dwr", "req", "dpr", "stall", "unstall"], 3)]),
+                 [("any", ["tbig", "tdwa", "t1", "t3", "dwa", "dwr", "req", "dpr", "stall", "unstall", "appreq"], 3)]),
+    # the capabilities exchange completes only after a timer pass has already looked at the connection
+    "late_cer": ((1, 0), ["accept", "t1", "cer_known"],
+                 [("any", ["tbig", "tdwa", "t1", "t3", "dwa", "dwr"], 3)]),
+    # a peer that comes back long after its last message (per-peer statistics windows have expired)
+    "comeback": ((0, 4), ["accept", "cer_known"],
+                 [("any", ["req", "ans"], 2), ("fixed", ["close", "t1200", "accept", "cer_known"]), ("any", ["req", "dwr", "ans"], 2)]),
+    "default_peer": ((4,), ["accept", "cer_known", "accept_bg", "bg_cer"],
+                     [("any", ["req", "swap", "ans", "appreq", "req_app", "dwr"], 3)]),
+    "partial_reads": ((0, 2), ["accept", "cer_known"],
+                      [("any", ["req_plus_part", "frag", "frag_rest", "req", "ans", "dwr", "t1"], 3)]),
     "answers": ((0, 2), ["accept", "cer_known"],
-                [("any", ["req", "req0", "req_raise", "ans", "ans_again", "close", "dpr", "accept_bg", "swap", "cer_known", "retx"], 3)]),
+                [("any", ["req", "req0", "req_raise", "req_unk_app", "ans", "ans_again", "close", "dpr", "accept_bg", "swap", "cer_known", "retx"], 3)]),
     "retransmit": ((0, 2), ["accept", "cer_known"],
-                   [("any", ["req", "ans", "retx", "req_unk", "t1"], 5)]),
+                   [("any", ["req", "ans", "retx", "retx_pending", "retx_old", "req_unk", "req_realm", "req_app", "t1"], 4)]),
     # a request of origin A answered, then up to 3 answered requests of A / B (window size 2: eviction), then the T-flagged repeat
     "retransmit_two_origins": ((0,), ["accept", "cer_known"],
                                [("fixed", ["ra"]), ("any", ["ra", "rb", "t1"], 3), ("fixed", ["retx"]), ("any", ["retx", "rb"], 1)]),
